@@ -104,17 +104,23 @@ func (c *Ctx) locksetBySim(fd *ast.FuncDecl, lts []lockedType) (*lockSimResult, 
 					res.usesLock = true
 					switch op {
 					case "Lock":
+						if w > 0 || r > 0 {
+							res.calls = append(res.calls, "Lock (the lock is already held: sync.RWMutex is not re-entrant)")
+						}
 						w++
 					case "Unlock":
 						w--
 					case "RLock":
+						if w > 0 || r > 0 {
+							res.calls = append(res.calls, "RLock (the lock is already held: a writer queued in between blocks both)")
+						}
 						r++
 					case "RUnlock":
 						r--
 					}
 					continue
 				}
-				if w > 0 || r > 0 {
+				if (w > 0 || r > 0) && !c.harmlessUnderLock(e.call) {
 					name := svString(*e.call)
 					if f, ok := e.call.callee.(*types.Func); ok {
 						name = f.Name()
@@ -318,4 +324,75 @@ func (c *Ctx) noCallUnderLockSim(rule string, lts []lockedType) map[*ast.FuncDec
 		c.ob(rule, fn, fd.Pos(), len(res.calls) == 0, fmt.Sprintf("calls %v are made while the cache lock may be held: re-entrancy or a lock-order cycle can deadlock", res.calls))
 	}
 	return done
+}
+
+// harmlessUnderLock: a call that cannot come back to the lock: a function outside the package (or a builtin such
+// as len) none of whose operands can carry code of the package - every operand is a constant, a string, a
+// boolean, a number, or a list of those. (Printf-style functions call methods of their operands; operands of
+// basic type have none.)
+func (c *Ctx) harmlessUnderLock(sc *svCall) bool {
+	if sc.callee == nil {
+		// builtins evaluated as calls (len, cap); a call through a function value is not harmless
+		return sc.call != nil && (c.isBuiltin(sc.call, "len") || c.isBuiltin(sc.call, "cap"))
+	}
+	f, ok := sc.callee.(*types.Func)
+	if !ok || f.Pkg() == nil || f.Pkg() == c.Types {
+		return false
+	}
+	var basic func(v sval) bool
+	basic = func(v sval) bool {
+		switch x := v.(type) {
+		case svConst, svNil:
+			return true
+		case svList:
+			for _, e := range x.elems {
+				if !basic(e) {
+					return false
+				}
+			}
+			return true
+		case svPath:
+			t := c.simTypeAtPath(x)
+			if t == nil {
+				return false
+			}
+			_, isBasic := t.Underlying().(*types.Basic)
+			return isBasic
+		case svCall:
+			// the result of another harmless call of basic type (len(x), Sprintf(..))
+			if x.callee == nil {
+				return x.call != nil && (c.isBuiltin(x.call, "len") || c.isBuiltin(x.call, "cap"))
+			}
+			if g, isF := x.callee.(*types.Func); isF {
+				res := g.Type().(*types.Signature).Results()
+				if x.idx < res.Len() {
+					_, isBasic := res.At(x.idx).Type().Underlying().(*types.Basic)
+					return isBasic
+				}
+			}
+			return false
+		case svHas:
+			return true
+		}
+		return false
+	}
+	if sc.recv != nil {
+		// a method of a type of another package (log.Logger.Printf) called on a package-owned value
+		sig := f.Type().(*types.Signature)
+		if sig.Recv() == nil {
+			return false
+		}
+		if n, isN := types.Unalias(derefType(sig.Recv().Type())).(*types.Named); !isN || n.Obj().Pkg() == nil || n.Obj().Pkg() == c.Types {
+			return false
+		}
+		if _, isIface := derefType(sig.Recv().Type()).Underlying().(*types.Interface); isIface {
+			return false
+		}
+	}
+	for _, a := range sc.args {
+		if !basic(a) {
+			return false
+		}
+	}
+	return true
 }
